@@ -263,6 +263,12 @@ C12_SourceNotPinned_ ==
 V(name, ok) == ok \/ (/\ PrintT(<<"VERDICT", name, l, cur.t, cur.i>>)
                       /\ \A h \in hz : PrintT(<<"HAZARD", h, l, cur.t, cur.i>>))
 
+\* Conformance with Concurrency.tla (ReadLockWhileOpen), not a property clause: with no call in flight an open, initialised
+\* DB holds a LIVE read transaction.  A false value is printed as a NOTE line (reported in the evidence, never a verdict).
+N(name, ok) == ok \/ PrintT(<<"NOTE", name, l, cur.t, cur.i>>)
+N_ReadLockWhileOpen == N("ReadLockWhileOpen", (Quiescent /\ cur.op \notin {"Reset", "Audit", "ParApp"} /\ cur.res # "at" /\ cur.op \notin {"CkStart", "CkStep", "CkCancel"}
+                                                  /\ cur.open /\ cur.handles /\ cur.up /\ cur.execFree) => cur.hasRead)
+
 C06_CompactedEqualsInputs == V("C06_CompactedEqualsInputs", C06_CompactedEqualsInputs_)
 C06_NoCorruptFile == V("C06_NoCorruptFile", C06_NoCorruptFile_)
 C06_LevelsContiguous == V("C06_LevelsContiguous", C06_LevelsContiguous_)
